@@ -184,7 +184,8 @@ class ScriptedEnv(gym.Env):
 
     def _episode(self):
         eps = self.script["episodes"]
-        return eps[(self.n_resets - 1) % len(eps)]
+        # a step before any reset plays episode 0, like Model/Script.v (cur_episode with c_resets = 0)
+        return eps[max(self.n_resets - 1, 0) % len(eps)]
 
     def _obs(self, tag, goal=None):
         return encode(self.observation_space, tag, goal)
